@@ -77,3 +77,20 @@ Theorem C08_burst_is_delayed_once : forall L ts arr,
   Forall (fun e => fst e = ts + L) (lat_sched L arr).
 Proof. exact lat_burst. Qed.
 Print Assumptions C08_burst_is_delayed_once.
+
+(** a latency toxic that is created, or whose latency is raised, reaches every connection whose
+    stage is not closed, however long that stage is busy handing data to a slow receiver: AddToxic /
+    UpdateToxic give up on a link only when the stub is closed, the interrupt they use has no time
+    limit, and the new stage is connected and started only after the interrupt succeeded
+    (regenerated shape of ToxicLink.AddToxic / UpdateToxic and ToxicStub.InterruptToxic) *)
+From TP Require Model.Reconf Model.ReconfRun Proofs.ReconfRunProofs.
+Theorem C08_reaches_every_open_connection : forall l p w,
+  ReconfRun.interrupt_try l p w = ReconfRun.IFalse -> exists s, nth_error (l_stubs l) p = Some s /\ s_closed s = true /\ w = false.
+Proof. exact ReconfRunProofs.interrupt_gives_up_only_on_closed. Qed.
+Print Assumptions C08_reaches_every_open_connection.
+
+Theorem C08_operation_code_facts :
+  interrupt_is_unbounded = true /\ ops_use_plain_interrupt = true /\ add_connects_after_interrupt = true /\
+  update_writes_before_interrupt = true.
+Proof. repeat split; reflexivity. Qed.
+Print Assumptions C08_operation_code_facts.
